@@ -1,4 +1,501 @@
-import NanoVerif.Model.WLearner
+import NanoVerif.Proofs.WLearnerBrute
+import Mathlib.Algebra.Order.Field.Rat
+import Mathlib.Tactic.NormNum
+/-!
+  C10 — weak learners fit residuals optimally in their class and predict consistently.
+
+  Property theorems about `Model/WLearner.lean` (the model of `src/wlearner/*.cpp`, `include/nano/core/reduce.h`), for every
+  linear ordered field `α` (exact arithmetic), every number of outputs `T`, every list of fitted samples (any subset,
+  repetitions allowed: a `List`), every gradient tensor (residual `r = −g` per sample), every pattern of missing values.
+  Conventions of the statements:
+  * `hfin : ∀ y, FinTest.isFin y = true` — in exact arithmetic no computed score overflows (`std::isfinite(score)`);
+  * `hbig : ∀ c ∈ cands, c.score < big` — `big` = `no_fit_score()` = `DBL_MAX` exceeds every computed score;
+  * `hsort : SortSpec sort` — `std::sort` returns a sorted permutation (`mergeSort_sortSpec`: the driver's sort is one);
+  * the criterion is `rss` (`make_score` = `cmax rss K`, `K` = `1e3·ε`); AIC/AICc/BIC need `log` and are only tested;
+  * `cols` = the features a fit loops over, each with the rows (value, residual) of the fitted samples; every
+    candidate remembers its feature; `fitSeq big cands` is what one thread returns, `fit_assignment_independent` makes
+    the result independent of the thread assignment when the best candidate is unique.
+-/
+set_option linter.unusedSectionVars false
+set_option linter.unusedVariables false
+
 namespace NanoVerif.WLearner
-theorem const_fit_optimal : True := trivial
+variable {α : Type} [Field α] [LinearOrder α] [IsStrictOrderedRing α]
+
+/-! ### least squares in the classes -/
+
+/-- The mean minimises `Σ_i Σ_o (r_io − c_o)²` and `Σ_o (r2_o − r1_o²/x0)` (the per-bin / per-side score computed from the
+    accumulated moments) is that minimum — for every non-empty list of residual vectors. -/
+theorem const_fit_optimal (T : Nat) (rs : List (Vec α)) (h : rs ≠ []) (c : Vec α) :
+    binScore T (rs.foldl Mom.upd0 Mom.zero) ≤ lsum (rs.map fun r => sqErr T r c) ∧
+    binScore T (rs.foldl Mom.upd0 Mom.zero)
+      = lsum (rs.map fun r => sqErr T r (binMean (rs.foldl Mom.upd0 Mom.zero))) :=
+  const_fit_vec T rs h c
+
+/-- Regular branch of `cache_t::constant()` (`x2·x0 − x1² > ε₁·x2·x0`, which implies `x2·x0 − x1² > 0`): the closed form
+    `(w, b)` of affine.cpp has the smallest RSS among all affine maps `w'·x + b'` of the feature (samples whose value is
+    missing are predicted zero by every member of the class). -/
+theorem affine_fit_optimal [Log α] {eps1 : α} (heps : 0 ≤ eps1) (T : Nat) (K : α) (crit : Crit) (f : Nat)
+    (rows : List (Row α)) (hreg : affineConst eps1 ((present rows).foldl Item.upd Mom.zero) = false) (w' b' : Vec α) :
+    0 < affineDen ((present rows).foldl Item.upd Mom.zero) ∧
+    (affineCand eps1 T K crit f rows).rss ≤ rssOf T rows (affinePred w' b') :=
+  ⟨(affineConst_false heps (present rows) hreg).1, affineCand_optimal_regular heps T K crit f rows hreg w' b'⟩
+
+/-- Degenerate branch: on a feature that is constant over the fitted samples (also: no value present) `constant()` holds,
+    the learner stores `w = 0, b = mean residual`, and this is optimal in the affine class. -/
+theorem affine_constant_branch_optimal [Log α] {eps1 : α} (heps : 0 ≤ eps1) (T : Nat) (K : α) (crit : Crit) (f : Nat)
+    (rows : List (Row α)) (c : α) (hconst : ∀ it ∈ present rows, it.v = c) (w' b' : Vec α) :
+    affineConst eps1 ((present rows).foldl Item.upd Mom.zero) = true ∧
+    (affineCand eps1 T K crit f rows).rss ≤ rssOf T rows (affinePred w' b') :=
+  affineCand_optimal_constant heps T K crit f rows c hconst w' b'
+
+/-! ### the sorted sweep -/
+
+/-- The running accumulator of every candidate of the sweep equals the accumulator recomputed over a non-empty proper
+    prefix of the sorted values, which is exactly the set of samples left of the candidate's threshold; the threshold is
+    the mid-point of two distinct values and equals no value (any accumulator update, any start value). -/
+theorem running_moments_eq_prefix (upd : Mom α → Item α → Mom α) (m0 : Mom α) (sorted : List (Item α))
+    (hs : sorted.Pairwise (fun a b => a.v ≤ b.v)) (c : α × Mom α) (hc : c ∈ sweep upd m0 sorted) :
+    (∃ l1 l2, sorted = l1 ++ l2 ∧ l1 ≠ [] ∧ l2 ≠ [] ∧ c.2 = l1.foldl upd m0) ∧
+    c.2 = (sorted.filter fun it => decide (it.v < c.1)).foldl upd m0 ∧
+    (∃ a b, a ∈ sorted ∧ b ∈ sorted ∧ a.v < b.v ∧ c.1 = half * (a.v + b.v)) ∧
+    (∀ x ∈ sorted, x.v ≠ c.1) := by
+  have h := sweep_sound upd m0 [] sorted (by simpa using hs) c (by simpa using hc)
+  simp only [List.nil_append] at h
+  exact ⟨h.pfx, h.acc, h.mid, h.ne_thr⟩
+
+/-! ### decision stump -/
+
+/-- What `stump_wlearner_t::fit` returns with the RSS criterion. No candidate exists exactly when no feature has two
+    distinct present values (then `no_fit_score()`); otherwise the selected candidate's score is `max(rss, K)` where
+    `rss` is the RSS (from the definition) of the stored stump, and no stump — any feature, ANY threshold that has present
+    values on both sides (not only mid-points), any two output vectors — has a smaller (clamped) RSS. -/
+theorem stump_fit_optimal [FinTest α] [Log α] (hfin : ∀ y : α, FinTest.isFin y = true)
+    (sort : List (Item α) → List (Item α)) (hsort : SortSpec sort) (T : Nat) (K big : α)
+    (cols : List (Nat × List (Row α))) (hbig : ∀ c ∈ stumpAll sort T K cols, c.score < big) :
+    (stumpAll sort T K cols = [] →
+      fitSeq big (stumpAll sort T K cols) = noFit big ∧
+      ∀ p ∈ cols, ∀ a ∈ present p.2, ∀ b ∈ present p.2, ¬ a.v < b.v) ∧
+    (stumpAll sort T K cols ≠ [] →
+      ∃ p ∈ cols, StumpCandSpec T K p.1 p.2 (fitSeq big (stumpAll sort T K cols)) ∧
+        ∀ q ∈ cols, ∀ (t : α) (lo hi : Vec α), (∃ it ∈ present q.2, it.v < t) → (∃ it ∈ present q.2, ¬ it.v < t) →
+          (fitSeq big (stumpAll sort T K cols)).score ≤ cmax (rssOf T q.2 (stumpPred t lo hi)) K) := by
+  obtain ⟨hnil, hcons⟩ := fitSeq_min hfin big (stumpAll sort T K cols) hbig
+  constructor
+  · intro he
+    refine ⟨hnil he, ?_⟩
+    intro p hp a ha b hb hab
+    obtain ⟨c, hc, _⟩ := stumpCands_complete sort hsort T K Crit.rss p.1 p.2 (half * (a.v + b.v))
+      ⟨a, ha, lt_mid hab⟩ ⟨b, hb, not_lt.mpr (le_of_lt (mid_lt hab))⟩
+    have : c ∈ stumpAll sort T K cols := List.mem_flatMap.mpr ⟨p, hp, hc⟩
+    rw [he] at this; simp at this
+  · intro hne
+    obtain ⟨hmem, hmin⟩ := hcons hne
+    obtain ⟨p, hp, hbest⟩ := List.mem_flatMap.mp hmem
+    refine ⟨p, hp, stumpCands_spec sort hsort T K p.1 p.2 _ hbest, ?_⟩
+    intro q hq t lo hi hl hr
+    obtain ⟨c, hc, hsame⟩ := stumpCands_complete sort hsort T K Crit.rss q.1 q.2 t hl hr
+    have hcs := stumpCands_spec sort hsort T K q.1 q.2 c hc
+    have h1 := hmin c (List.mem_flatMap.mpr ⟨q, hq, hc⟩)
+    have h2 : c.rss ≤ rssOf T q.2 (stumpPred t lo hi) := by
+      rw [← hsame lo hi]; exact hcs.coeff_opt lo hi
+    rw [hcs.score] at h1
+    exact le_trans h1 (cmax_mono K h2)
+
+/-- The same result as an equation: the reported score is `max(m, K)` where `m` is the brute-force minimum — over all
+    features and all mid-points of two distinct present values — of the RSS, computed from the definition, of the stump
+    whose two outputs are the means of its two sides. -/
+theorem stump_fit_eq_brute [FinTest α] [Log α] (hfin : ∀ y : α, FinTest.isFin y = true)
+    (sort : List (Item α) → List (Item α)) (hsort : SortSpec sort) (T : Nat) (K big : α)
+    (cols : List (Nat × List (Row α))) (hbig : ∀ c ∈ stumpAll sort T K cols, c.score < big) :
+    (stumpAll sort T K cols = [] → stumpBrute T (cols.map (·.2)) = none) ∧
+    (stumpAll sort T K cols ≠ [] → ∃ m, stumpBrute T (cols.map (·.2)) = some m ∧
+      (fitSeq big (stumpAll sort T K cols)).score = cmax m K) := by
+  obtain ⟨hA, hB⟩ := stump_fit_optimal hfin sort hsort T K big cols hbig
+  -- the brute-force list
+  have hbl : ∀ e, e ∈ ((cols.map (·.2)).flatMap fun rows => (midpoints (presentVals rows)).map (stumpBruteAt T rows)) ↔
+      ∃ p ∈ cols, ∃ a ∈ present p.2, ∃ b ∈ present p.2, a.v < b.v ∧ e = stumpBruteAt T p.2 (half * (a.v + b.v)) := by
+    intro e
+    simp only [List.mem_flatMap, List.mem_map]
+    constructor
+    · rintro ⟨rows, ⟨p, hp, rfl⟩, t, ht, rfl⟩
+      obtain ⟨a, ha, b, hb, hab, rfl⟩ := (mem_midpoints _ t).mp ht
+      rw [presentVals_eq] at ha hb
+      obtain ⟨ia, hia, rfl⟩ := List.mem_map.mp ha
+      obtain ⟨ib, hib, rfl⟩ := List.mem_map.mp hb
+      exact ⟨p, hp, ia, hia, ib, hib, hab, rfl⟩
+    · rintro ⟨p, hp, a, ha, b, hb, hab, rfl⟩
+      refine ⟨p.2, ⟨p, hp, rfl⟩, half * (a.v + b.v), ?_, rfl⟩
+      rw [mem_midpoints, presentVals_eq]
+      exact ⟨a.v, List.mem_map.mpr ⟨a, ha, rfl⟩, b.v, List.mem_map.mpr ⟨b, hb, rfl⟩, hab, rfl⟩
+  constructor
+  · intro he
+    obtain ⟨_, hno⟩ := hA he
+    unfold stumpBrute
+    apply (lmin?_spec _).1
+    apply List.eq_nil_iff_forall_not_mem.mpr
+    intro e hmem
+    obtain ⟨p, hp, a, ha, b, hb, hab, _⟩ := (hbl e).mp hmem
+    exact hno p hp a ha b hb hab
+  · intro hne
+    obtain ⟨p, hp, hspec, hopt⟩ := hB hne
+    obtain ⟨a, b, ha, hb, hab, hthr⟩ := hspec.mid
+    have hmem0 : stumpBruteAt T p.2 (half * (a.v + b.v)) ∈
+        ((cols.map (·.2)).flatMap fun rows => (midpoints (presentVals rows)).map (stumpBruteAt T rows)) :=
+      (hbl _).mpr ⟨p, hp, a, ha, b, hb, hab, rfl⟩
+    obtain ⟨m, hm, hmmem, hmmin⟩ := (lmin?_spec _).2 (List.ne_nil_of_mem hmem0)
+    refine ⟨m, hm, le_antisymm ?_ ?_⟩
+    · -- the fitted score is below every brute-force entry
+      obtain ⟨q, hq, a', ha', b', hb', hab', rfl⟩ := (hbl m).mp hmmem
+      unfold stumpBruteAt
+      exact hopt q hq _ _ _ ⟨a', ha', lt_mid hab'⟩ ⟨b', hb', not_lt.mpr (le_of_lt (mid_lt hab'))⟩
+    · -- the brute-force entry at the fitted threshold is below the fitted RSS
+      rw [hspec.score]
+      apply cmax_mono
+      obtain ⟨hl, hr⟩ := sides_of_midpoint (present p.2) a b ha hb hab
+      have h1 := stumpBruteAt_le T p.2 (half * (a.v + b.v)) hl hr
+        (tab (fitSeq big (stumpAll sort T K cols)).tables 0) (tab (fitSeq big (stumpAll sort T K cols)).tables 1)
+      rw [← hthr, ← hspec.rss_eq] at h1
+      rw [← hthr] at hmem0
+      exact le_trans (hmmin _ hmem0) h1
+
+/-! ### hinge -/
+
+/-- What `hinge_wlearner_t::fit` returns with the RSS criterion: the selected candidate's score is `max(rss, K)`, `rss` is
+    the RSS of the stored hinge `β·(x − t)₊ / β·(t − x)₋`, and it is the minimum over the class found by brute force: every
+    feature, every mid-point `t` between two consecutive distinct present values, both directions, every slope vector. -/
+theorem hinge_fit_eq_brute [FinTest α] [Log α] (hfin : ∀ y : α, FinTest.isFin y = true)
+    (sort : List (Item α) → List (Item α)) (hsort : SortSpec sort) (T : Nat) (K big : α)
+    (cols : List (Nat × List (Row α))) (hbig : ∀ c ∈ hingeAll sort T K cols, c.score < big) :
+    (hingeAll sort T K cols = [] →
+      fitSeq big (hingeAll sort T K cols) = noFit big ∧
+      ∀ p ∈ cols, ∀ a ∈ present p.2, ∀ b ∈ present p.2, ¬ a.v < b.v) ∧
+    (hingeAll sort T K cols ≠ [] →
+      ∃ p ∈ cols, HingeCandSpec T K p.1 p.2 (fitSeq big (hingeAll sort T K cols)) ∧
+        ∀ q ∈ cols, ∀ a ∈ present q.2, ∀ b ∈ present q.2, a.v < b.v →
+          (∀ z ∈ present q.2, ¬ (a.v < z.v ∧ z.v < b.v)) → ∀ (left : Bool) (beta : Vec α),
+          (fitSeq big (hingeAll sort T K cols)).score
+            ≤ cmax (rssOf T q.2 (hingePred (half * (a.v + b.v)) left beta)) K) := by
+  obtain ⟨hnil, hcons⟩ := fitSeq_min hfin big (hingeAll sort T K cols) hbig
+  -- two distinct present values ⇒ two consecutive distinct present values ⇒ a candidate
+  have hexists : ∀ p ∈ cols, ∀ a ∈ present p.2, ∀ b ∈ present p.2, a.v < b.v → hingeAll sort T K cols ≠ [] := by
+    intro p hp a ha b hb hab
+    have hperm := hsort.perm (present p.2)
+    obtain ⟨sc, hsc, _⟩ := sweep_complete Item.upd (half * (a.v + b.v)) (sort (present p.2)) Mom.zero (hsort.sorted _)
+      ⟨a, hperm.symm.subset ha, lt_mid hab⟩ ⟨b, hperm.symm.subset hb, not_lt.mpr (le_of_lt (mid_lt hab))⟩
+    intro he
+    have hex : ∃ c, c ∈ hingeCands T K Crit.rss p.1 ((present p.2).foldl Item.upd Mom.zero) (missRss T p.2)
+        (missCnt p.2) sc := by
+      simp only [hingeCands]; exact ⟨_, List.mem_cons_self⟩
+    obtain ⟨c, hc⟩ := hex
+    have : c ∈ hingeAll sort T K cols :=
+      List.mem_flatMap.mpr ⟨p, hp, List.mem_flatMap.mpr ⟨sc, hsc, hc⟩⟩
+    rw [he] at this; simp at this
+  constructor
+  · intro he
+    refine ⟨hnil he, ?_⟩
+    intro p hp a ha b hb hab
+    exact hexists p hp a ha b hb hab he
+  · intro hne
+    obtain ⟨hmem, hmin⟩ := hcons hne
+    obtain ⟨p, hp, hbest⟩ := List.mem_flatMap.mp hmem
+    refine ⟨p, hp, hingeCands_spec sort hsort T K p.1 p.2 _ hbest, ?_⟩
+    intro q hq a ha b hb hab hadj left beta
+    obtain ⟨c, hc, hthr, hdir⟩ := hingeCands_complete sort hsort T K Crit.rss q.1 q.2 a b ha hb hab hadj
+      (if left then 0 else 1) (by cases left <;> simp)
+    have hcs := hingeCands_spec sort hsort T K q.1 q.2 c hc
+    have h1 := hmin c (List.mem_flatMap.mpr ⟨q, hq, hc⟩)
+    have h2 := hcs.coeff_opt beta
+    rw [hthr, hdir] at h2
+    have hl : ((if left then 0 else 1 : Nat) == 0) = left := by cases left <;> rfl
+    rw [hl] at h2
+    rw [hcs.score] at h1
+    exact le_trans h1 (cmax_mono K h2)
+
+/-! ### look-up tables -/
+
+/-- What `dense_table_wlearner_t::fit` returns with the RSS criterion (at least one categorical feature): the score is
+    `max(m, K)` where `m` is the brute-force minimum over the features of the RSS of the table of per-label-set means, the
+    stored table is that table, and no table on any feature — any vector per label set — has a smaller (clamped) RSS. -/
+theorem table_fit_eq_brute [FinTest α] [Log α] (hfin : ∀ y : α, FinTest.isFin y = true) (T : Nat) (K big : α)
+    (cols : List (Nat × List (CRow α))) (hne : cols ≠ []) (hbig : ∀ c ∈ denseAll T K cols, c.score < big) :
+    (∃ p ∈ cols, fitSeq big (denseAll T K cols) = denseCand T K Crit.rss p.1 p.2 ∧
+      (fitSeq big (denseAll T K cols)).rss = rssOfC T p.2 (tablePred (denseTable p.2))) ∧
+    (∀ q ∈ cols, ∀ tbl : Nat → Vec α,
+      (fitSeq big (denseAll T K cols)).score ≤ cmax (rssOfC T q.2 (tablePred tbl)) K) ∧
+    (∃ m, denseBrute T (cols.map (·.2)) = some m ∧ (fitSeq big (denseAll T K cols)).score = cmax m K) := by
+  have hcne : denseAll T K cols ≠ [] := by
+    unfold denseAll; simpa using hne
+  obtain ⟨hmem, hmin⟩ := (fitSeq_min hfin big (denseAll T K cols) hbig).2 hcne
+  obtain ⟨p, hp, hbest⟩ := List.mem_map.mp hmem
+  have hopt : ∀ q ∈ cols, ∀ tbl : Nat → Vec α,
+      (fitSeq big (denseAll T K cols)).score ≤ cmax (rssOfC T q.2 (tablePred tbl)) K := by
+    intro q hq tbl
+    have h1 := hmin _ (List.mem_map.mpr ⟨q, hq, rfl⟩)
+    have h2 := (denseCand_spec T K Crit.rss q.1 q.2).2 tbl
+    have hs : (denseCand T K Crit.rss q.1 q.2).score = cmax (denseCand T K Crit.rss q.1 q.2).rss K := by
+      simp only [denseCand, makeScore]
+    rw [hs] at h1
+    exact le_trans h1 (cmax_mono K h2)
+  have hbrute : ∀ rows : List (CRow α), denseBruteAt T rows = rssOfC T rows (tablePred (denseTable rows)) := by
+    intro rows
+    unfold denseBruteAt rssOfC
+    apply lsum_map_congr; intro row _
+    apply sqErr_congr; intro o
+    cases row.h with
+    | none => rfl
+    | some h =>
+      simp only [tablePred, denseTable]
+      rw [meanOf_eq, binMom_eq]; rfl
+  refine ⟨⟨p, hp, hbest.symm, ?_⟩, hopt, ?_⟩
+  · rw [← hbest]; exact (denseCand_spec T K Crit.rss p.1 p.2).1
+  · have hlne : (cols.map (·.2)).map (denseBruteAt T) ≠ [] := by simpa using hne
+    obtain ⟨m, hm, hmmem, hmmin⟩ := (lmin?_spec _).2 hlne
+    refine ⟨m, hm, le_antisymm ?_ ?_⟩
+    · obtain ⟨rows, hrows, rfl⟩ := List.mem_map.mp hmmem
+      obtain ⟨q, hq, rfl⟩ := List.mem_map.mp hrows
+      rw [hbrute]; exact hopt q hq _
+    · have hs : (fitSeq big (denseAll T K cols)).score = cmax (fitSeq big (denseAll T K cols)).rss K := by
+        rw [← hbest]; simp only [denseCand, makeScore]
+      rw [hs]
+      apply cmax_mono
+      have : denseBruteAt T p.2 ∈ (cols.map (·.2)).map (denseBruteAt T) :=
+        List.mem_map.mpr ⟨p.2, List.mem_map.mpr ⟨p, hp, rfl⟩, rfl⟩
+      have h1 := hmmin _ this
+      rw [hbrute] at h1
+      rw [← hbest, (denseCand_spec T K Crit.rss p.1 p.2).1]
+      exact h1
+
+/-- What `dstep_table_wlearner_t::fit` returns with the RSS criterion (as the code is since 0bb37f2: a feature without any
+    present value yields no candidate): the stored one-row table is on a label set present among the fitted samples, its
+    reported RSS is the RSS of its predictions, and no one-label-set table — any feature, any label set, any vector — has a
+    smaller (clamped) RSS. -/
+theorem dstep_fit_optimal [FinTest α] [Log α] (hfin : ∀ y : α, FinTest.isFin y = true) (T : Nat) (K big : α)
+    (cols : List (Nat × List (CRow α))) (hbig : ∀ c ∈ dstepAll T K cols, c.score < big) :
+    (dstepAll T K cols = [] → fitSeq big (dstepAll T K cols) = noFit big ∧ ∀ p ∈ cols, hashesOf p.2 = []) ∧
+    (dstepAll T K cols ≠ [] →
+      (∃ p ∈ cols, ∃ h0 ∈ hashesOf p.2, fitSeq big (dstepAll T K cols) = dstepCandOf T K Crit.rss p.1 p.2 h0 ∧
+        (fitSeq big (dstepAll T K cols)).rss
+          = rssOfC T p.2 (stepPred h0 (tab (fitSeq big (dstepAll T K cols)).tables 0))) ∧
+      ∀ q ∈ cols, hashesOf q.2 ≠ [] → ∀ (h' : Nat) (c' : Vec α),
+        (fitSeq big (dstepAll T K cols)).score ≤ cmax (rssOfC T q.2 (stepPred h' c')) K) := by
+  obtain ⟨hnil, hcons⟩ := fitSeq_min hfin big (dstepAll T K cols) hbig
+  have hmemAll : ∀ q ∈ cols, hashesOf q.2 ≠ [] → ∃ h0 ∈ hashesOf q.2,
+      dstepCandOf T K Crit.rss q.1 q.2 h0 ∈ dstepAll T K cols ∧
+      ∀ (h' : Nat) (c' : Vec α), (dstepCandOf T K Crit.rss q.1 q.2 h0).rss ≤ rssOfC T q.2 (stepPred h' c') := by
+    intro q hq hh
+    obtain ⟨h0, hm0, hc, hopt⟩ := (dstepCand_spec T K Crit.rss q.1 q.2).2 hh
+    exact ⟨h0, hm0, List.mem_flatMap.mpr ⟨q, hq, by rw [hc]; simp⟩, hopt⟩
+  constructor
+  · intro he
+    refine ⟨hnil he, ?_⟩
+    intro p hp
+    by_contra hh
+    obtain ⟨h0, _, hm, _⟩ := hmemAll p hp hh
+    rw [he] at hm; simp at hm
+  · intro hne
+    obtain ⟨hmem, hmin⟩ := hcons hne
+    obtain ⟨p, hp, hbest⟩ := List.mem_flatMap.mp hmem
+    constructor
+    · cases hd : dstepCand T K Crit.rss p.1 p.2 with
+      | none => rw [hd] at hbest; simp at hbest
+      | some c =>
+        rw [hd] at hbest
+        simp at hbest
+        have hh : hashesOf p.2 ≠ [] := by
+          intro e
+          rw [(dstepCand_spec T K Crit.rss p.1 p.2).1 e] at hd; simp at hd
+        obtain ⟨h0, hm0, hc, _⟩ := (dstepCand_spec T K Crit.rss p.1 p.2).2 hh
+        rw [hd] at hc
+        simp at hc
+        refine ⟨p, hp, h0, hm0, by rw [hbest, hc], ?_⟩
+        rw [hbest, hc]
+        exact (dstepCandOf_spec T K Crit.rss p.1 p.2 h0 hm0).1
+    · intro q hq hh h' c'
+      obtain ⟨h0, _, hm, hopt⟩ := hmemAll q hq hh
+      have h1 := hmin _ hm
+      have hs : (dstepCandOf T K Crit.rss q.1 q.2 h0).score = cmax (dstepCandOf T K Crit.rss q.1 q.2 h0).rss K := by
+        simp only [dstepCandOf, makeScore]
+      rw [hs] at h1
+      exact le_trans h1 (cmax_mono K (hopt h' c'))
+
+/-! ### the fitted learner's predictions reproduce the reported RSS -/
+
+/-- For every candidate a stump / hinge / affine / dense-table fit can select, the value handed to `make_score` is the RSS
+    of the predictions (`predict` from zero outputs) of the learner that `fit` stores for it (`Cand.toStump` …), over the
+    fitted samples. -/
+theorem fit_predict_reproduces_rss [Log α] (sort : List (Item α) → List (Item α)) (hsort : SortSpec sort)
+    (T : Nat) (K eps1 : α) (f : Nat) :
+    (∀ (rows : List (Row α)), ∀ c ∈ stumpCands sort T K Crit.rss f rows, c.rss = predRss T c.toStump f rows) ∧
+    (∀ (rows : List (Row α)), ∀ c ∈ hingeFeatureCands sort T K Crit.rss f rows, c.rss = predRss T c.toHinge f rows) ∧
+    (∀ (rows : List (Row α)) (crit : Crit),
+      (affineCand eps1 T K crit f rows).rss = predRss T (affineCand eps1 T K crit f rows).toAffine f rows) ∧
+    (∀ (rows : List (CRow α)) (crit : Crit),
+      (denseCand T K crit f rows).rss = predRssC T (denseCand T K crit f rows).toTable f rows) := by
+  refine ⟨?_, ?_, ?_, ?_⟩
+  · intro rows c hc
+    have hs := stumpCands_spec sort hsort T K f rows c hc
+    rw [hs.rss_eq]
+    unfold rssOf predRss
+    apply lsum_map_congr; intro row _
+    apply sqErr_congr; intro o
+    rw [predictOne_zero]
+    unfold Cand.toStump
+    rw [contrib_stump c.feature c.thr c.tables _ row.x (by rw [hs.feature]; exact sampleOf_self f _)]
+  · intro rows c hc
+    have hs := hingeCands_spec sort hsort T K f rows c hc
+    rw [hs.rss_eq]
+    unfold rssOf predRss
+    apply lsum_map_congr; intro row _
+    apply sqErr_congr; intro o
+    rw [predictOne_zero]
+    unfold Cand.toHinge
+    rw [contrib_hinge c.feature c.thr (c.dir == 0) c.tables _ row.x (by rw [hs.feature]; exact sampleOf_self f _)
+      hs.offset o]
+  · intro rows crit
+    rw [affineCand_rss_eq]
+    unfold rssOf predRss
+    apply lsum_map_congr; intro row _
+    apply sqErr_congr; intro o
+    rw [predictOne_zero]
+    unfold Cand.toAffine
+    rw [contrib_affine _ _ _ row.x (by exact sampleOf_self f _)]
+  · intro rows crit
+    rw [(denseCand_spec T K crit f rows).1]
+    unfold rssOfC predRssC
+    apply lsum_map_congr; intro row hrow
+    apply sqErr_congr; intro o
+    rw [predictOne_zero]
+    rw [dense_contrib T K crit f rows _ row.h (by exact sampleOf_self f _)
+      (fun h hh => (mem_hashesOf rows h).mpr ⟨row, hrow, hh⟩)]
+
+/-! ### threads -/
+
+/-- `min_reduce` over the per-thread caches returns the candidate a single thread returns, for every assignment of the
+    candidates to workers (every candidate is seen by exactly one worker: `hperm`, the pool's contract C17) and every
+    order in which a worker sees its candidates, when the minimal score is attained by one candidate only. -/
+theorem fit_assignment_independent [FinTest α] (big : α) (cands : List (Cand α)) (workers : List (List (Cand α)))
+    (hperm : workers.flatten.Perm cands) (c0 : Cand α) (h0 : c0 ∈ cands)
+    (hf0 : FinTest.isFin c0.score = true) (hb : c0.score < big)
+    (huniq : ∀ c ∈ cands, c ≠ c0 → FinTest.isFin c.score = true → c0.score < c.score) :
+    fitAssigned big workers = c0 ∧ fitSeq big cands = c0 :=
+  fit_assignment_independent_cands big cands workers hperm c0 h0 hf0 hb huniq
+
+/-! ### predict / split / scale / merge (all learners, including k-best / k-split tables and decision trees) -/
+
+/-- predictions are added to the given outputs -/
+theorem predict_adds (l : Learner α) (s : Nat → FVal α) (out : Vec α) (o : Nat) :
+    predictOne l s out o = out o + predictOne l s zeroV o := by
+  rw [predictOne_eq, predictOne_zero]
+
+/-- a sample whose selected feature (the root feature of a tree) is missing is not assigned and its outputs are unchanged -/
+theorem predict_missing_zero (l : Learner α) (s : Nat → FVal α) (f : Nat) (hf : l.rootFeature = some f)
+    (hm : s f = FVal.missing) (out : Vec α) :
+    predictOne l s out = out ∧ splitOne l s = none := by
+  have := eval_missing l s f hf hm
+  simp [predictOne, splitOne, this]
+
+/-- the prediction of a sample is the table row of the group `split()` reports for it (stump, every look-up table,
+    decision tree), `w·x + b` on group 0 (affine, hinge); a sample that `split()` does not assign gets nothing -/
+theorem predict_eq_table_of_split (l : Learner α) (s : Nat → FVal α) (out : Vec α) :
+    (splitOne l s = none → predictOne l s out = out) ∧
+    (∀ g, splitOne l s = some g → l.isTable → ∀ o, predictOne l s out o = out o + tab l.tables g o) ∧
+    (∀ g, splitOne l s = some g → ¬ l.isTable →
+      g = 0 ∧ ∃ f x, l.rootFeature = some f ∧ s f = FVal.num x ∧ ∀ o, predictOne l s out o = out o + lin l.tables x o) := by
+  refine ⟨?_, ?_, ?_⟩
+  · intro h
+    unfold splitOne at h
+    cases he : eval l s with
+    | none => simp [predictOne, he]
+    | some p => rw [he] at h; simp at h
+  · intro g h ht o
+    unfold splitOne at h
+    cases he : eval l s with
+    | none => rw [he] at h; simp at h
+    | some p =>
+      rw [he] at h; simp at h
+      have hv := eval_isTable l ht s p.1 p.2 he
+      rw [predictOne_eq]; unfold contrib; rw [he]; simp only; rw [hv, h]
+  · intro g h ht
+    unfold splitOne at h
+    cases he : eval l s with
+    | none => rw [he] at h; simp at h
+    | some p =>
+      rw [he] at h; simp at h
+      obtain ⟨hg, f, x, hf, hs, hv⟩ := eval_linear l ht s p.1 p.2 he
+      refine ⟨by rw [← h]; exact hg, f, x, hf, hs, fun o => ?_⟩
+      rw [predictOne_eq]; unfold contrib; rw [he]; simp only; rw [hv]
+
+/-- `scale(sc)` keeps the groups and multiplies the prediction of group `g` by `sc[min(g, |sc|−1)]`: any scale vector for
+    the table learners (stump, tables, trees), the one-element vector for affine / hinge (one group) -/
+theorem scale_scales (l : Learner α) (sc : List α) (hsc : l.isTable ∨ ∃ c, sc = [c]) (s : Nat → FVal α) :
+    splitOne (l.scale sc) s = splitOne l s ∧
+    ∀ o, predictOne (l.scale sc) s zeroV o
+      = predictOne l s zeroV o * (match splitOne l s with | some g => factor sc g | none => 1) := by
+  have h := eval_scale l sc hsc s
+  constructor
+  · unfold splitOne; rw [h]; cases eval l s <;> rfl
+  · intro o
+    rw [predictOne_zero, predictOne_zero]
+    unfold contrib splitOne
+    rw [h]
+    cases eval l s with
+    | none => simp [zeroV]
+    | some p => rfl
+
+/-- merging a list of learners leaves the sum of their predictions unchanged (for every sample and output) -/
+theorem merge_preserves_sum (ls : List (Learner α)) (s : Nat → FVal α) (o : Nat) :
+    lsum ((merge ls).map fun l => predictOne l s zeroV o) = lsum (ls.map fun l => predictOne l s zeroV o) := by
+  have h := mergeAux_sum ls.length ls s o
+  unfold sumContrib at h
+  unfold merge
+  simp only [predictOne_zero]
+  exact h
+
+/-! ### non-vacuity: the hypotheses are satisfiable on concrete data over ℚ -/
+
+section examples
+local instance : FinTest ℚ := ⟨fun _ => true⟩
+local instance : Log ℚ := ⟨fun x => x⟩
+
+/-- three fitted samples (one of them twice), one scalar feature with a tie, one output -/
+def exRows : List (Row ℚ) :=
+  [⟨0, some 1, fun _ => 2⟩, ⟨1, some 1, fun _ => -1⟩, ⟨2, some 3, fun _ => 4⟩, ⟨2, some 3, fun _ => 4⟩, ⟨3, none, fun _ => 1⟩]
+
+example : SortSpec (α := ℚ) (fun l => l.mergeSort itemLe) := mergeSort_sortSpec
+
+/-- the stump fit on `exRows` has a candidate (so `stump_fit_optimal`'s second branch applies) -/
+example : stumpAll (fun l => l.mergeSort itemLe) 1 (0 : ℚ) [(0, exRows)] ≠ [] := by
+  intro he
+  obtain ⟨c, hc, _⟩ := stumpCands_complete (fun l => l.mergeSort itemLe) mergeSort_sortSpec 1 (0 : ℚ) Crit.rss 0 exRows 2
+    ⟨⟨1, 0, fun _ => 2⟩, by simp [exRows, present], by norm_num⟩
+    ⟨⟨3, 2, fun _ => 4⟩, by simp [exRows, present], by norm_num⟩
+  have : c ∈ stumpAll (fun l => l.mergeSort itemLe) 1 (0 : ℚ) [(0, exRows)] := by
+    unfold stumpAll; simpa using hc
+  rw [he] at this; simp at this
+
+/-- the regular branch of the affine learner is reachable: on `exRows` `constant()` is false (`x2·x0 − x1² = 16 > 0`) -/
+example : affineConst (1 / 100000000000 : ℚ) ((present exRows).foldl Item.upd Mom.zero) = false := by
+  simp [exRows, present, affineConst, Item.upd, Mom.upd, Mom.zero]
+  norm_num
+
+/-- … and the degenerate branch on a constant feature -/
+example : affineConst (1 / 100000000000 : ℚ)
+    ((present [⟨0, some (1 / 10 : ℚ), fun _ => 2⟩, ⟨1, some (1 / 10), fun _ => -1⟩, ⟨2, some (1 / 10), fun _ => 4⟩]).foldl
+      Item.upd Mom.zero) = true := by
+  simp [present, affineConst, Item.upd, Mom.upd, Mom.zero]
+  norm_num
+
+/-- a unique minimiser exists (hypotheses of `fit_assignment_independent`): two candidates with scores 1 < 2 -/
+example : ∃ (c0 c1 : Cand ℚ), c0.score < c1.score ∧ fitAssigned (10 : ℚ) [[c1], [], [c0]] = c0 := by
+  refine ⟨⟨1, 1, 0, 0, 0, [], [], []⟩, ⟨2, 2, 1, 0, 0, [], [], []⟩, by norm_num, ?_⟩
+  simp [fitAssigned, fitSeq, pick, noFit, minReduce, FinTest.isFin]
+  norm_num
+
+/-- merging two affine learners on the same feature gives one learner -/
+example : (merge [Learner.affine 0 [fun _ => (1 : ℚ), fun _ => 2], Learner.affine 0 [fun _ => 3, fun _ => 4]]).length = 1 := by
+  simp [merge, mergeAux, absorb, tryMerge]
+
+end examples
+
 end NanoVerif.WLearner
